@@ -76,7 +76,7 @@ type c16Peer struct {
 // is reported (as a known finding) without costing the other runs.
 func c16NoLimitHuge(w *W) {
 	kind := []string{"pair", "pull", "rep", "sub", "bus"}[w.Choose(simrt.SShape, 5)]
-	tran := []string{"sim", "simipc", "tcp", "ipc"}[w.Choose(simrt.SShape, 4)] // tcp / ipc: the real listener code on the simulated network
+	tran := w.simFallback([]string{"sim", "simipc", "tcp", "ipc"}[w.Choose(simrt.SShape, 4)]) // tcp / ipc: the real listener code on the simulated network
 	w.SetShape("kind", kind)
 	w.SetShape("tran", tran)
 	w.SetShape("limit", 0)
@@ -121,7 +121,7 @@ func c16Run(w *W) {
 		return
 	}
 	kind := allKinds[w.Choose(simrt.SShape, len(allKinds))]
-	tran := []string{"sim", "simipc", "tcp", "ipc"}[w.Choose(simrt.SShape, 4)] // tcp / ipc: the real listener code on the simulated network
+	tran := w.simFallback([]string{"sim", "simipc", "tcp", "ipc"}[w.Choose(simrt.SShape, 4)]) // tcp / ipc: the real listener code on the simulated network
 	ipc := isIPCTran(tran)
 	limits := []int{0, 16, 100, 1024, 1024 * 1024}
 	limit := limits[w.Choose(simrt.SShape, len(limits))]
@@ -582,7 +582,7 @@ func init() {
 // which the simulator cannot host.
 func c16Real(w *W) {
 	kind := []string{"pull", "bus", "sub", "pair", "xrep", "xsurveyor", "star"}[w.Choose(simrt.SShape, 7)]
-	tran := []string{"tcp", "ws", "tls+tcp", "wss"}[w.Choose(simrt.SShape, 4)]
+	tran := w.simFallback([]string{"tcp", "ws", "tls+tcp", "wss"}[w.Choose(simrt.SShape, 4)])
 	limit := []int{100, 1000, 5000}[w.Choose(simrt.SShape, 3)]
 	srvCfg, cliCfg := tlsConfigs()
 	w.SetShape("kind", kind)
@@ -995,7 +995,7 @@ func init() {
 // on the listener still returns.
 func c16ManyStalled(w *W) {
 	kind := []string{"pull", "bus", "sub", "pair", "xrep", "xsurveyor", "star", "rep"}[w.Choose(simrt.SShape, 8)]
-	tran := []string{"sim", "simipc", "tcp", "ipc", "tls+tcp"}[w.Choose(simrt.SShape, 5)]
+	tran := w.simFallback([]string{"sim", "simipc", "tcp", "ipc", "tls+tcp"}[w.Choose(simrt.SShape, 5)])
 	nstall := 8 + w.Choose(simrt.SShape, 41)
 	w.SetShape("kind", kind)
 	w.SetShape("tran", tran)
